@@ -169,24 +169,28 @@ impl<DataInterfaceType: DeduplicationDataInterface> FileDeduper<DataInterfaceTyp
             }
 
             if let Some((n_deduped, fse)) = dedupe_query {
-                dedup_metrics.deduped_chunks += n_deduped;
-                dedup_metrics.deduped_bytes += fse.unpacked_segment_bytes as usize;
-                dedup_metrics.total_chunks += n_deduped;
-                dedup_metrics.total_bytes += fse.unpacked_segment_bytes as usize;
-
                 // check the fragmentation state and if it is pretty fragmented,
                 // we skip dedupe.  However, continuing the previous is always fine.
                 if self.file_data_sequence_continues_current(&fse)
                     || self.defrag_tracker.allow_dedup_on_next_range(n_deduped)
                 {
+                    // Only an accepted run counts as deduplicated.
+                    dedup_metrics.deduped_chunks += n_deduped;
+                    dedup_metrics.deduped_bytes += fse.unpacked_segment_bytes as usize;
+                    dedup_metrics.total_chunks += n_deduped;
+                    dedup_metrics.total_bytes += fse.unpacked_segment_bytes as usize;
+
                     // We found one or more chunk hashes present
                     self.add_file_data_sequence_entry(fse, n_deduped);
 
                     cur_idx += n_deduped;
                     continue;
                 } else {
-                    dedup_metrics.defrag_prevented_dedup_chunks += n_deduped;
-                    dedup_metrics.defrag_prevented_dedup_bytes += fse.unpacked_segment_bytes as usize;
+                    // The run is rejected: the current chunk is emitted as new data below (and
+                    // counted there); the remaining chunks of the run are examined again in the
+                    // following iterations.  So exactly this chunk is withheld from dedup here.
+                    dedup_metrics.defrag_prevented_dedup_chunks += 1;
+                    dedup_metrics.defrag_prevented_dedup_bytes += chunks[cur_idx].data.len();
                 }
             }
 
